@@ -209,6 +209,9 @@ func (c *C10) Run(x *engine.Ctx) *engine.Violation {
 	t := x.T
 	s := c.g.systems[0]
 	x.S.Touch("probe:proof_with_short_coordinate/real", "probe:proof_with_short_coordinate/forged")
+	if x.Run%5 == 4 {
+		return c.concurrentCallers(x) // World L: interleaved encoders/decoders, each on its own proofs
+	}
 	if t.Chance(1, 2) {
 		p, hash, err := proveValid(t, s)
 		if err != nil {
